@@ -12,6 +12,7 @@ package nebula
 // punch schedule are compared with a reference model written from the property statement.
 
 import (
+	"go.yaml.in/yaml/v3"
 	"context"
 	"fmt"
 	"net/netip"
@@ -531,6 +532,9 @@ type c35Req struct {
 	desc    string
 	learn   bool // not a message: the peer's tunnel came up from this underlay address
 	learnAt netip.AddrPort
+	// not a message: lighthouse.hosts is reloaded to this list (client nodes only)
+	reloadLHs []string
+	reload    bool
 }
 
 func c35GenMsgBytes(rt *rapid.T, sender c35Peer, amLH bool) ([]byte, string) {
@@ -653,6 +657,15 @@ func c35GenCfg(rt *rapid.T) c35Cfg {
 	for _, l := range c.lhs {
 		c.statics[l] = []string{"203.0.113.1:4242"}
 	}
+	if !c.amLH && len(c.lhs) > 0 {
+		// both candidate lighthouses are static hosts, so that lighthouse.hosts can be reloaded to
+		// either of them (a lighthouse needs a static_host_map entry)
+		for _, l := range []string{"10.128.0.100", "10.128.0.101"} {
+			if _, ok := c.statics[l]; !ok {
+				c.statics[l] = []string{"203.0.113.1:4242"}
+			}
+		}
+	}
 	if rapid.IntRange(0, 2).Draw(rt, "extraStatic") == 0 {
 		// a statically configured ordinary host (also possible on a lighthouse)
 		c.statics["10.128.0.2"] = []string{"203.0.113.2:4242", "[2001:db8::99]:4242"}
@@ -691,6 +704,11 @@ func TestC35_Requests(t *testing.T) {
 			pi := rapid.IntRange(0, len(c35Peers)-1).Draw(rt, "peer")
 			if len(cfg.lhs) > 0 && rapid.Bool().Draw(rt, "fromConfiguredLighthouse") {
 				pi = rapid.IntRange(4, len(c35Peers)-1).Draw(rt, "lhPeer")
+			}
+			if !cfg.amLH && len(cfg.lhs) > 0 && rapid.IntRange(0, 14).Draw(rt, "reloadOp") == 0 {
+				nl := rapid.SampledFrom([][]string{{"10.128.0.100"}, {"10.128.0.101"}, {"10.128.0.100", "10.128.0.101"}, {"10.128.0.101", "10.128.0.100"}}).Draw(rt, "newLighthouses")
+				reqs = append(reqs, c35Req{reload: true, reloadLHs: nl, desc: "reload lighthouse.hosts"})
+				continue
 			}
 			if rapid.IntRange(0, 9).Draw(rt, "learnOp") == 0 {
 				var ap netip.AddrPort
@@ -809,6 +827,40 @@ func c35Run(cfg c35Cfg, reqs []c35Req) (failure string, labels []string, nontriv
 	lbl := map[string]bool{}
 	for i, r := range reqs {
 		p := c35Peers[r.peer]
+		if r.reload {
+			hist = append(hist, fmt.Sprintf("%d: lighthouse.hosts reloaded to %v", i, r.reloadLHs))
+			ns := map[string]any{}
+			for k, v := range cfg.settings {
+				ns[k] = v
+			}
+			lhm := map[string]any{}
+			for k, v := range cfg.settings["lighthouse"].(map[string]any) {
+				lhm[k] = v
+			}
+			hosts := make([]any, len(r.reloadLHs))
+			for k := range r.reloadLHs {
+				hosts[k] = r.reloadLHs[k]
+			}
+			lhm["hosts"] = hosts
+			ns["lighthouse"] = lhm
+			yb, err := yaml.Marshal(ns)
+			if err != nil {
+				return "harness: yaml: " + err.Error(), nil, false, hist
+			}
+			if err := c.ReloadConfigString(string(yb)); err != nil {
+				return "harness: reload: " + err.Error(), nil, false, hist
+			}
+			synctest.Wait()
+			m.lighthouses = m.lighthouses[:0]
+			for _, s := range r.reloadLHs {
+				m.lighthouses = append(m.lighthouses, netip.MustParseAddr(s))
+			}
+			labels = append(labels, "lighthouse-hosts-reloaded")
+			if got, want := c35RealView(lh), m.view(); got != want {
+				return fmt.Sprintf("cache differs after reloading lighthouse.hosts:\n%s\nwant:\n%s", got, want), labels, nontrivial, hist
+			}
+			continue
+		}
 		if r.learn {
 			hist = append(hist, fmt.Sprintf("%d: tunnel of %s %v came up from %v", i, p.name, p.addrs, r.learnAt))
 			lh.QueryCache(p.addrs).LearnRemote(p.addrs[0], r.learnAt)
